@@ -531,6 +531,12 @@ def run(check):
     check.guarded("MODIFIED-HOOK", S.rule_modified_implies_hook)
     check.guarded("COUNT-ONCE", rule_count_once)
     check.guarded("TAGS", rule_tags)
+    # which verbosity a configuration string stands for decides what is counted at all: `off` read as an
+    # unknown name reports counts where none are wanted, `debug` loses the breakdown
+    from . import c05 as _c05
+    from ..engine import Only as _OnlyV
+    check.rule("VERBOSITY-PARSE", "the verbosity names OFF / MANDATORY / INFORMATION / DEBUG are compared case-insensitively and map to their variants; anything else is Information")
+    check.guarded("VERBOSITY-PARSE", lambda c: _c05.rule_defaults(_OnlyV(c, "DEFAULTS", "VERBOSITY-PARSE", ("/verbosity-case", "/verbosity-map"))))
     from .. import xformrules as X
 
     check.guarded("FANOUT", X.rule_fanout)
